@@ -592,4 +592,4 @@ def check(ctx):
     r12_guard_and_host_are_normalised_alike(ctx)
 
 
-CLAUSE += '; every module listed in routes(from![..]) is imported (shared C04.R6)'
+CLAUSE += ' Also: every module listed in routes(from![..]) is imported (shared C04.R6).'
